@@ -39,6 +39,17 @@ Proof.
   apply update_first_names. intros c. apply extend_attrs_name.
 Qed.
 
+Lemma existsb_partition {A} (f g : A -> bool) l :
+  existsb f (filter g l ++ filter (fun x => negb (g x)) l) = existsb f l.
+Proof.
+  rewrite existsb_app. induction l as [|x r IH]; [reflexivity|]. cbn. destruct (g x); cbn; rewrite <- IH.
+  - rewrite orb_assoc. reflexivity.
+  - destruct (f x); cbn; [apply orb_true_r|reflexivity].
+Qed.
+
+Lemma sort_envelope_has n c : has_inner n (sort_envelope c) = has_inner n c.
+Proof. unfold has_inner, sort_envelope. destruct c as [q m t ns at_ inn]. cbn [set_inner set_attrs c_inner]. apply existsb_partition. Qed.
+
 Section Succeeds.
   Variables (d : definitions) (t : str).
   Hypothesis Ht : d_tns d = Some t.
@@ -105,7 +116,7 @@ Section Succeeds.
     destruct (fold_steps_some style operation ptm bm (bm_exts bm) Hexts
                 (AClass (build_qname (d_tns d) (name ++ [95] ++ suffix)) (Some m_envelope) TagBindingMessage (Some m_soap_env) [] []))
       as [tg' [Ef Hb]].
-    rewrite Ef.
+    rewrite Ef. cbn [option_map].
     assert (exists ms, (if str_eqb style m_rpc
                         then match build_message_class d (Some ptm) with Some c => Some [c] | None => None end
                         else Some []) = Some ms) as [ms Ems].
@@ -113,8 +124,9 @@ Section Succeeds.
     rewrite Ems.
     destruct is_output; [|eauto].
     unfold build_envelope_fault.
-    pose proof (Hb (or_intror (body_among bm _ _ _ Hbody))) as Hhas. unfold has_inner in Hhas.
-    destruct (find (inner_named m_body) (c_inner tg')) as [body|] eqn:Efind.
+    pose proof (Hb (or_intror (body_among bm _ _ _ Hbody))) as Hhas. rewrite <- sort_envelope_has in Hhas.
+    unfold has_inner in Hhas.
+    destruct (find (inner_named m_body) (c_inner (sort_envelope tg'))) as [body|] eqn:Efind.
     2:{ exfalso. apply existsb_exists in Hhas as [x [Hx1 Hx2]]. pose proof (find_none _ _ Efind x Hx1). congruence. }
     assert (exists das, detail_attrs d (pto_faults po) = Some das) as [das Ed].
     { clear -Ht Htn Hfw. specialize (Hfw eq_refl). induction (pto_faults po) as [|f r IH]; [cbn; eauto|].
